@@ -30,7 +30,7 @@ RULE = (
     "(a) 11 function kinds x all parameter lists of 0..2 parameters (functions: 0..3; thorough one more each) x 4 exit kinds "
     "x call styles {all args, defaults used, by keyword} + nesting/recursion/propagation/yield-from/property/lambda scenarios "
     "+ twin modules in both call orders, for k in {0,3}; (b) BFS over all sequences of driver operations {next, send, "
-    "throw, close, drop} on every single and every ordered pair of 10 generator/coroutine templates (incl. a types.coroutine generator and an async def awaiting it) to depth 6 (thorough 9); "
+    "throw, close, drop} on every single and every ordered pair of 10 generator/coroutine templates (incl. a types.coroutine generator and an async def awaiting it) to depth 6 (thorough 12: the frontier empties before that for every template combination); "
     "state = per-instance position + CallTracer.traces + cache + log length; transition = one driver operation judged "
     "against sys.monitoring ground truth; non-trivial = operation that completed or suspended a traced frame"
 )
@@ -727,7 +727,7 @@ def enabled_ops(state_key: Tuple, ninst: int) -> List[Tuple[int, str]]:
 
 
 def part_protocols(ctx: Ctx) -> Result:
-    depth = 6 if ctx.quick else 9
+    depth = 6 if ctx.quick else 12
     combos: List[Tuple[int, ...]] = [(t,) for t in range(len(TEMPLATES))] + [(a, b) for a in range(len(TEMPLATES)) for b in range(len(TEMPLATES))]
     if not ctx.quick:
         combos += [(0, 4, 7), (1, 2, 3), (6, 6, 6)]
@@ -766,6 +766,7 @@ def part_protocols(ctx: Ctx) -> Result:
             level += 1
         res.states += len(seen)
         res.outcomes |= {hash(s) for s in seen}
+        res.count("b:combinations-whose-state-space-closed-within-the-bound" if not frontier else "b:combinations-cut-at-the-depth-bound")
         res.bounds["b_depth"] = depth
         res.sample({"part": "b", "templates": [TEMPLATES[t][0] for t in templates], "states": len(seen)})
         # determinism of replay: the same history gives the same key twice
